@@ -26,6 +26,7 @@ type goroutine struct {
 	ready   func() bool // nil = runnable
 	why     string
 	name    string
+	delayed bool // suspended (DelayAtFS) until no other goroutine can run
 }
 
 type scheduler struct {
@@ -106,6 +107,7 @@ func (s *scheduler) pick(g *goroutine) *goroutine {
 			break
 		}
 	}
+	var held *goroutine
 	for k := 0; k < n; k++ {
 		x := s.all[(start+k)%n]
 		if x == g || x.done {
@@ -115,10 +117,20 @@ func (s *scheduler) pick(g *goroutine) *goroutine {
 			continue
 		}
 		if x.ready == nil || x.ready() {
+			if x.delayed {
+				if held == nil {
+					held = x
+				}
+				continue
+			}
 			return x
 		}
 	}
-	return nil
+	if held != nil {
+		// nobody else can run: the delayed goroutine goes on
+		held.delayed = false
+	}
+	return held
 }
 
 // handoff passes the baton from g to the next goroutine. If exiting is false
